@@ -116,6 +116,8 @@ Rebuilt(cx, b, op) ==
     [] k = "sig_extra"       -> Rehash([b EXCEPT !.lastCommit.sigs = Append(@, AbsentSig)])
     [] k = "sig_fewer"       -> Rehash([b EXCEPT !.lastCommit.sigs = SubSeq(@, 1, Len(@) - 1)])
     [] k = "round"           -> Rehash([b EXCEPT !.lastCommit = ResignAll(cx, [c EXCEPT !.round = @ + 1])])
+    [] k = "height_skip"     -> Rehash([b EXCEPT !.height = @ + 1,
+                                                  !.lastCommit = ResignAll(cx, [c EXCEPT !.height = @ + 1])])
     [] k = "all_ts_last_rt"  -> Retime(cx, Rehash([b EXCEPT !.lastCommit = ResignAll(cx, [c EXCEPT !.sigs =
                                     [n \in DOMAIN c.sigs |-> IF c.sigs[n].flag = "absent" THEN c.sigs[n]
                                                              ELSE [c.sigs[n] EXCEPT !.ts = cx.st.lastTime]]])]))
@@ -174,7 +176,7 @@ RebuildOps(cx, b) ==
                          i \in present}
   \cup {OpI("R", k, i) : k \in {"sig_nil_unsigned", "sig_nil"}, i \in forblock}
   \cup UNION {{OpIJ("R", k, i, j) : k \in {"sig_addr", "sig_addr_rt"}, j \in {x \in 1..nl : x # i /\ (AllSigIdx \/ x = (i % nl) + 1)}} : i \in present}
-  \cup (IF n >= 1 THEN {Op("R", "sig_extra"), Op("R", "sig_fewer"), Op("R", "round"), Op("R", "all_ts_last_rt")} ELSE {})
+  \cup (IF n >= 1 THEN {Op("R", "sig_extra"), Op("R", "sig_fewer"), Op("R", "round"), Op("R", "height_skip"), Op("R", "all_ts_last_rt")} ELSE {})
   \cup (IF hasPast THEN {Op("R", k) : k \in {"ev_valid", "ev_badpower", "ev_badtotal", "ev_badsig", "ev_wrongtime",
                                               "ev_dup", "ev_oversize"}} ELSE {})
   \cup (IF cx.st.lastHeight > cx.st.initialHeight THEN {Op("R", "ev_old")} ELSE {})
